@@ -124,7 +124,8 @@ def run(c):
     out = os.path.join(rd, "yout.ndjson")
     rc, o = vlib.sh("%s trees %s %s" % (exe, cf, out), timeout=3000)
     if rc != 0:
-        raise vlib.Inconclusive("yaml harness failed rc=%d %s" % (rc, o[-500:]))
+        c.violation("yaml:trees:crash-or-hang", "building / printing / re-parsing the dictionaries with the real YAMLDictionary did not finish "
+                    "(harness rc=%d) %s" % (rc, o[-300:]), {"out": o[-800:]})
     got = {}
     for line in open(out):
         try:
